@@ -218,6 +218,8 @@ def judge_event(var, oa, ob, cnt):
     scale = abs(la) + abs(ca) + abs(net) + 1
     tolr = TOL_FINE * 10 ** 4 + Fraction(1, 10 ** 17) * scale
     nonterm = lc.nonterminating_split([t for t in base if t["ticker"] == tk])
+    if nonterm and 0 < pos < Fraction(1, 10 ** 15):
+        pos = ZERO      # the matcher's own position is decimal residue of a non-terminating ratio (~1e-24): "zero held"
     if pos > 0:
         cnt["events_took_effect"] += 1
         ok = abs(delta - net) <= tolr
